@@ -560,3 +560,153 @@ Proof.
   pose proof (select_loop_progress (batch - countb is_fetching q) l1 e l2 Hq) as Hpr.
   rewrite Hsl in Hpr. apply Hpr. lia.
 Qed.
+
+(* ------------------------------------------------------------------ *)
+(* bounded liveness over several rounds, under the environment assumption that
+   every block handed out in a round is fetched before the next round.         *)
+
+Definition all_queued (q : list entry) : Prop := Forall (fun e => e_st e = Queued) q.
+
+Lemma select_loop_all_queued quota q :
+  all_queued q ->
+  snd (select_loop quota q) = map hk (firstn (N.to_nat quota) q)
+  /\ map ekey (fst (select_loop quota q)) = map ekey q
+  /\ Forall (fun e => e_st e = Fetching) (firstn (N.to_nat quota) (fst (select_loop quota q)))
+  /\ skipn (N.to_nat quota) (fst (select_loop quota q)) = skipn (N.to_nat quota) q.
+Proof.
+  revert quota. induction q as [|e t IH]; intros quota Hq.
+  - cbn [select_loop fst snd]. rewrite !firstn_nil, !skipn_nil. repeat split; constructor.
+  - inversion Hq as [|? ? He Ht]; subst. cbn [select_loop].
+    destruct (N.eqb_spec quota 0) as [->|Hn].
+    + cbn [fst snd N.to_nat firstn skipn map]. repeat split; constructor.
+    + rewrite He. specialize (IH (quota - 1) Ht).
+      destruct (select_loop (quota - 1) t) as [t' sel] eqn:Hs. cbn [fst snd] in *.
+      destruct IH as (I1 & I2 & I3 & I4).
+      assert (Hq' : N.to_nat quota = S (N.to_nat (quota - 1))) by lia.
+      rewrite Hq'. cbn [firstn skipn map]. repeat split.
+      * rewrite I1. reflexivity.
+      * rewrite I2. reflexivity.
+      * constructor; [reflexivity|exact I3].
+      * exact I4.
+Qed.
+
+(* insertion sort leaves a sorted list alone *)
+Lemma insert_by_head {A} (le : A -> A -> bool) x l :
+  Forall (fun y => le x y = true) l -> insert_by le x l = x :: l.
+Proof. destruct l as [|y t]; [reflexivity|]. intros H. inversion H; subst. cbn [insert_by]. now rewrite H2. Qed.
+
+Lemma sort_by_sorted_id {A} (le : A -> A -> bool) l :
+  StronglySorted (fun a b => le a b = true) l -> sort_by le l = l.
+Proof.
+  induction l as [|x t IH]; intros H; [reflexivity|].
+  inversion H as [|? ? Ht Hall]; subst. cbn [sort_by fold_right]. fold (sort_by le t).
+  rewrite (IH Ht). now apply insert_by_head.
+Qed.
+
+(* what one peer's queue looks like after a selection round followed by the arrival of
+   every block that was handed out: the first [batch] entries (in height order) are gone *)
+Fixpoint fetch_all (hashes : list N) (q : list entry) : list entry :=
+  match hashes with
+  | [] => q
+  | h :: t => fetch_all t (filter not_fetched (mark_first h q))
+  end.
+
+Definition hashes_unique (q : list entry) : Prop := NoDup (map e_hash q).
+
+Lemma filter_not_fetched_id q :
+  Forall (fun e => e_st e <> Fetched) q -> filter not_fetched q = q.
+Proof.
+  induction q as [|e t IH]; intros H; [reflexivity|]. inversion H; subst. cbn [filter].
+  unfold not_fetched at 1. destruct (e_st e); try contradiction; cbn [status_eqb negb]; f_equal; auto.
+Qed.
+
+Lemma fetch_all_prefix pre rest :
+  Forall (fun e => e_st e <> Fetched) (pre ++ rest) ->
+  fetch_all (map e_hash pre) (pre ++ rest) = rest.
+Proof.
+  revert rest. induction pre as [|e t IH]; intros rest Hnf; [reflexivity|].
+  cbn [map fetch_all app mark_first]. rewrite N.eqb_refl. cbn [filter].
+  unfold not_fetched at 1. cbn [e_st set_st status_eqb negb].
+  cbn [app] in Hnf. inversion Hnf as [|? ? _ Hnf']; subst.
+  rewrite filter_not_fetched_id by exact Hnf'. now apply IH.
+Qed.
+
+(* one peer, ideal round: sort, hand out, everything handed out arrives *)
+Definition ideal_round (batch : N) (q : list entry) : list entry :=
+  let q1 := sort_by entry_le q in
+  fetch_all (map fst (snd (select_loop batch q1))) (fst (select_loop batch q1)).
+
+Lemma skipn_In_local {A} n (l : list A) x : In x (skipn n l) -> In x l.
+Proof. revert l. induction n as [|n IH]; intros [|y t] H; cbn in *; auto. Qed.
+
+Lemma firstn_map_hash n (l : list entry) : map e_hash (firstn n l) = firstn n (map e_hash l).
+Proof. symmetry. apply firstn_map. Qed.
+
+Lemma ideal_round_spec batch q :
+  all_queued q ->
+  ideal_round batch q = skipn (N.to_nat batch) (sort_by entry_le q).
+Proof.
+  intros Hq. unfold ideal_round. set (q1 := sort_by entry_le q).
+  assert (Hp : Permutation q1 q) by apply sort_by_perm.
+  assert (Hq1 : all_queued q1) by (eapply Permutation_Forall; [symmetry; exact Hp|exact Hq]).
+  destruct (select_loop_all_queued batch q1 Hq1) as (S1 & S2 & S3 & S4).
+  set (q' := fst (select_loop batch q1)) in *. rewrite S1, map_map.
+  replace (map (fun x => fst (hk x)) (firstn (N.to_nat batch) q1))
+    with (map e_hash (firstn (N.to_nat batch) q')).
+  2:{ assert (Hh : map e_hash q' = map e_hash q1).
+      { assert (Hk : forall l, map snd (map ekey l) = map e_hash l)
+          by (intros l; rewrite map_map; apply map_ext; reflexivity).
+        rewrite <- !Hk. now rewrite S2. }
+      rewrite !firstn_map_hash, Hh. rewrite <- firstn_map_hash. apply map_ext. reflexivity. }
+  rewrite <- S4.
+  rewrite <- (firstn_skipn (N.to_nat batch) q') at 2.
+  apply fetch_all_prefix. rewrite firstn_skipn.
+  (* nothing in q' is Fetched: first part Fetching, rest unchanged Queued *)
+  rewrite <- (firstn_skipn (N.to_nat batch) q'). apply Forall_app. split.
+  - eapply Forall_impl; [|exact S3]. intros e He. rewrite He. discriminate.
+  - rewrite S4. apply Forall_forall. intros e He.
+    assert (Hin : In e q1) by (eapply (skipn_In_local); exact He).
+    unfold all_queued in Hq1. rewrite Forall_forall in Hq1. rewrite (Hq1 _ Hin). discriminate.
+Qed.
+
+Lemma StronglySorted_skipn {A} (R : A -> A -> Prop) n l :
+  StronglySorted R l -> StronglySorted R (skipn n l).
+Proof.
+  revert l. induction n as [|n IH]; intros [|x t] H; cbn [skipn]; auto.
+  inversion H; subst. auto.
+Qed.
+
+Lemma all_queued_skipn n q : all_queued q -> all_queued (skipn n q).
+Proof.
+  unfold all_queued. intros H. apply Forall_forall. intros e He.
+  rewrite Forall_forall in H. apply H. eapply skipn_In_local; exact He.
+Qed.
+
+Lemma skipn_skipn_local {A} (x y : nat) (l : list A) : skipn x (skipn y l) = skipn (y + x) l.
+Proof.
+  revert l. induction y as [|y IH]; intros l; [reflexivity|].
+  destruct l as [|a t]; cbn [skipn Nat.add]; [now rewrite skipn_nil|apply IH].
+Qed.
+
+Fixpoint rounds (k : nat) (batch : N) (q : list entry) : list entry :=
+  match k with O => q | S k' => rounds k' batch (ideal_round batch q) end.
+
+(* after k+1 rounds in each of which everything handed out arrives, exactly the first
+   (k+1) * batch entries (in (height, hash) order) have been requested and received *)
+Lemma rounds_spec k batch q :
+  all_queued q ->
+  rounds (S k) batch q = skipn (S k * N.to_nat batch) (sort_by entry_le q).
+Proof.
+  revert q. induction k as [|k IH]; intros q Hq.
+  - cbn [rounds]. rewrite ideal_round_spec by exact Hq. f_equal; lia.
+  - change (rounds (S (S k)) batch q) with (rounds (S k) batch (ideal_round batch q)).
+    rewrite ideal_round_spec by exact Hq.
+    assert (Hs : StronglySorted (fun a b => entry_le a b = true) (sort_by entry_le q))
+      by (apply sort_by_sorted; [apply entry_le_total|apply entry_le_trans]).
+    assert (Hq' : all_queued (skipn (N.to_nat batch) (sort_by entry_le q))).
+    { apply all_queued_skipn. eapply Permutation_Forall; [symmetry; apply sort_by_perm|exact Hq]. }
+    rewrite IH by exact Hq'.
+    rewrite (sort_by_sorted_id entry_le) by (apply StronglySorted_skipn; exact Hs).
+    rewrite skipn_skipn_local. f_equal; lia.
+Qed.
+
